@@ -25,6 +25,7 @@ import (
 	"verifharness/internal/hooks"
 	"verifharness/internal/memnet"
 	"verifharness/internal/rec"
+	"verifharness/internal/track"
 )
 
 type Tables struct {
@@ -53,11 +54,14 @@ type Trace struct {
 }
 
 type env struct {
-	u    *conns.UDP
-	seen int
-	mid  int32
-	n    int
-	obs  []interface {
+	tr     *track.Tracker // optional: pool ownership tracking (C12)
+	held   []*pool.Message
+	heldMu sync.Mutex
+	u      *conns.UDP
+	seen   int
+	mid    int32
+	n      int
+	obs    []interface {
 		Cancel(ctx context.Context, opts ...message.Option) error
 	}
 	reqs  []memnet.Dgram
@@ -115,7 +119,7 @@ type call struct {
 	code int
 }
 
-func async(f func() (*pool.Message, error)) *call {
+func (e *env) async(f func() (*pool.Message, error)) *call {
 	c := &call{done: make(chan struct{})}
 	go func() {
 		defer close(c.done)
@@ -123,9 +127,27 @@ func async(f func() (*pool.Message, error)) *call {
 		c.err = err
 		if err == nil && resp != nil {
 			c.code = int(resp.Code())
+			if e.tr != nil { // the application now holds the response until it releases it (end of the scenario)
+				e.tr.Hold(resp)
+				e.heldMu.Lock()
+				e.held = append(e.held, resp)
+				e.heldMu.Unlock()
+			}
 		}
 	}()
 	return c
+}
+
+// releaseHeld: the application gives back the responses it was handed (content must still be what it was).
+func (e *env) releaseHeld() {
+	e.heldMu.Lock()
+	hs := e.held
+	e.held = nil
+	e.heldMu.Unlock()
+	for _, m := range hs {
+		e.tr.AppRelease(m)
+		e.u.CC.ReleaseMessage(m)
+	}
 }
 
 func (c *call) wait() bool {
@@ -160,7 +182,7 @@ func (e *env) run(kind string) (bool, string) {
 	p := fmt.Sprintf("/x%d", e.n)
 	ctx, cancel := context.WithCancel(context.Background())
 	defer cancel()
-	get := func() *call { return async(func() (*pool.Message, error) { return cc.Get(ctx, p) }) }
+	get := func() *call { return e.async(func() (*pool.Message, error) { return cc.Get(ctx, p) }) }
 	switch kind {
 	case "plainOK":
 		c := get()
@@ -205,7 +227,7 @@ func (e *env) run(kind string) (bool, string) {
 	case "dupToken":
 		tok := []byte{0x13, byte(e.n)}
 		do := func(path string) *call {
-			return async(func() (*pool.Message, error) {
+			return e.async(func() (*pool.Message, error) {
 				req, err := cc.NewGetRequest(ctx, path)
 				if err != nil {
 					return nil, err
@@ -228,7 +250,7 @@ func (e *env) run(kind string) (bool, string) {
 		return c1.wait(), outcome(c1)
 	case "bwUpOK", "bwUpCancel", "bwUpRefused":
 		body := bytes.Repeat([]byte{7}, 40)
-		c := async(func() (*pool.Message, error) { return cc.Post(ctx, p, message.AppOctets, bytes.NewReader(body)) })
+		c := e.async(func() (*pool.Message, error) { return cc.Post(ctx, p, message.AppOctets, bytes.NewReader(body)) })
 		for i := 0; i < 3; i++ {
 			q, ok := e.waitOut(pathIs(p))
 			if !ok {
@@ -276,8 +298,13 @@ func (e *env) run(kind string) (bool, string) {
 		var o interface {
 			Cancel(ctx context.Context, opts ...message.Option) error
 		}
-		c := async(func() (*pool.Message, error) {
-			x, err := cc.Observe(ctx, p, func(*pool.Message) {})
+		c := e.async(func() (*pool.Message, error) {
+			x, err := cc.Observe(ctx, p, func(n *pool.Message) {
+				if e.tr != nil { // the notification belongs to the application while the callback runs
+					e.tr.Hold(n)
+					e.tr.Unhold(n)
+				}
+			})
 			if err == nil {
 				o = x
 			}
@@ -306,7 +333,7 @@ func (e *env) run(kind string) (bool, string) {
 		}
 		o := e.obs[len(e.obs)-1]
 		e.obs = e.obs[:len(e.obs)-1]
-		c := async(func() (*pool.Message, error) { return nil, o.Cancel(ctx) })
+		c := e.async(func() (*pool.Message, error) { return nil, o.Cancel(ctx) })
 		q, ok := e.waitOut(func(d memnet.Dgram) bool {
 			v, err := d.Opts.Observe()
 			return d.Code == int(codes.GET) && err == nil && v == 1
@@ -317,7 +344,7 @@ func (e *env) run(kind string) (bool, string) {
 		e.inject(message.Acknowledgement, codes.Content, q.MID, q.Token, nil, []byte("v"))
 		return c.wait(), outcome(c)
 	case "pingOK", "pingCancel":
-		c := async(func() (*pool.Message, error) { return nil, cc.Ping(ctx) })
+		c := e.async(func() (*pool.Message, error) { return nil, cc.Ping(ctx) })
 		q, ok := e.waitOut(func(d memnet.Dgram) bool { return d.Type == message.Confirmable && d.Code == int(codes.Empty) })
 		if !ok {
 			return false, "noping"
@@ -379,10 +406,15 @@ func (e *env) run(kind string) (bool, string) {
 	return false, ""
 }
 
-func runOne(t int, kinds []string) Trace {
+func runOne(t int, kinds []string) Trace { return RunHistory(t, kinds, 64, nil) }
+
+// RunHistory runs one history; poolSize is the connection's message-pool size (0: released messages are never
+// handed out again), trk an optional ownership tracker.
+func RunHistory(t int, kinds []string, poolSize uint32, trk *track.Tracker) Trace {
 	tr := Trace{T: t, Ev: []Ev{}}
-	e := &env{mid: 20000, taken: map[int]bool{}}
+	e := &env{mid: 20000, taken: map[int]bool{}, tr: trk}
 	e.u = conns.NewUDP(func(cfg *udpclient.Config) {
+		cfg.MessagePool = pool.New(poolSize, 2048)
 		cfg.BlockwiseEnable = true
 		cfg.BlockwiseSZX = blockwise.SZX16
 		cfg.BlockwiseTransferTimeout = 3 * time.Second
@@ -392,6 +424,10 @@ func runOne(t int, kinds []string) Trace {
 		cfg.LimitClientParallelRequests = 4
 		cfg.LimitClientEndpointParallelRequests = 1
 		cfg.Handler = func(w *responsewriter.ResponseWriter[*udpclient.Conn], r *pool.Message) {
+			if trk != nil { // the request belongs to the application while the handler runs
+				trk.Hold(r)
+				defer trk.Unhold(r)
+			}
 			p, _ := r.Path()
 			switch p {
 			case "/small":
@@ -406,6 +442,9 @@ func runOne(t int, kinds []string) Trace {
 	_ = mu
 	for _, k := range kinds {
 		done, out := e.run(k)
+		if trk != nil {
+			e.releaseHeld()
+		}
 		e.u.Quiesce()
 		time.Sleep(300 * time.Microsecond)
 		e.u.Quiesce()
